@@ -278,7 +278,25 @@ fn hook(point: &'static str) {
         let _ = ctx.tx.send(Msg::Parked(tid, point));
         // wait for the scheduler; if it is gone (harness failure path) just run on
         if let Some(g) = ctx.go.get(tid) {
-            let _ = g.recv();
+            // hand-offs are short: spin / yield briefly before blocking (keeps the run time
+            // reasonable when the machine is oversubscribed)
+            let mut n = 0u32;
+            loop {
+                match g.try_recv() {
+                    Ok(()) => break,
+                    Err(crossbeam_channel::TryRecvError::Disconnected) => break,
+                    Err(crossbeam_channel::TryRecvError::Empty) => {}
+                }
+                n += 1;
+                if n < 3000 {
+                    std::hint::spin_loop();
+                } else if n < 3200 {
+                    std::thread::yield_now();
+                } else {
+                    let _ = g.recv();
+                    break;
+                }
+            }
         }
     }
 }
@@ -461,7 +479,23 @@ impl Exec {
     fn wait_thread(&mut self, t: usize, _from: Option<&'static str>) -> Vec<String> {
         let mut parts = vec![];
         loop {
-            match self.rx.recv_timeout(STEP_TIMEOUT) {
+            let mut n = 0u32;
+            let msg = loop {
+                match self.rx.try_recv() {
+                    Ok(m) => break Ok(m),
+                    Err(crossbeam_channel::TryRecvError::Disconnected) => break Err(RecvTimeoutError::Disconnected),
+                    Err(crossbeam_channel::TryRecvError::Empty) => {}
+                }
+                n += 1;
+                if n < 3000 {
+                    std::hint::spin_loop();
+                } else if n < 3200 {
+                    std::thread::yield_now();
+                } else {
+                    break self.rx.recv_timeout(STEP_TIMEOUT);
+                }
+            };
+            match msg {
                 Ok(Msg::Parked(u, p)) if u == t => {
                     self.at[t] = Some(p);
                     return parts;
@@ -1084,7 +1118,7 @@ fn main() {
             let (_, complete) = dfs(&mut s, &cfg, cap);
             s.stats.count(if complete { "dfs.config_exhausted" } else { "dfs.config_capped" });
         }
-        for _ in 0..1000 {
+        for _ in 0..2000 {
             let cfg = gen_config(&mut rng, &mut s.stats);
             random_case(&mut s, &cfg, &mut rng);
         }
